@@ -265,6 +265,10 @@ def known_class(r, text):
     deliberately not part of the key)."""
     m = re.search(r"\(crash \"([a-z_]+\.rs):\d+\" \"((?:[^\"\\]|\\.)*)\"", r)
     if not m:
+        # a `const { a - b }` array size with a < b wraps to a size near 2^32 (const arithmetic wraps by design,
+        # compile.rs make_resolve_const_function): the compiler then dies allocating the wires (abort / deadline)
+        if r.startswith(("(abort", "(timeout")) and re.search(r"const\s*\{[^}]*-[^}]*\}", text):
+            return "compile-const-expr-array-size"
         return None
     f, msg = m.group(1), m.group(2)
     if f == "compile.rs" and "const {" in text.replace("const{", "const {"):
